@@ -24,6 +24,8 @@ def jobs(tier):
     for burst in ((6,) if q else (2, 4, 6, 10)):
         for target in (64, 128, 256, 512, 1024, 4096):
             js.append({"scenario": "c20.shrink", "cfg": {"burst": burst, "target": target, "tbuf": 1}, "bound": 2, "deadline": 120})
+            if target in (64, 256):
+                js.append({"scenario": "c20.shrink", "cfg": {"burst": burst, "target": target, "tbuf": 1, "park": 1}, "bound": 1 if q else 2, "deadline": 120})
     return js
 
 
